@@ -408,7 +408,15 @@ func key16(r *core.RNG) [16]byte {
 
 func eui(r *core.RNG) [8]byte {
 	var e [8]byte
-	r.Fill(e[:])
+	switch r.Intn(12) {
+	case 0: // all-zero is a valid identifier
+	case 1:
+		for i := range e {
+			e[i] = 0xff
+		}
+	default:
+		r.Fill(e[:])
+	}
 	return e
 }
 
